@@ -445,19 +445,19 @@ Proof.
   assert (Po : 0 < 2 ^ off) by (apply pow2_pos; lia).
   assert (Eos : 2 ^ (off + size) = 2 ^ off * 2 ^ size) by (apply pow2_add; lia).
   assert (Hos : 2 ^ (off + size) <= 2 ^ cbits ct) by (apply pow2_le; lia).
-  set (S := (2 ^ size - 1) * 2 ^ off).
-  assert (HS : 0 <= S < 2 ^ cbits ct) by (unfold S; nia).
+  set (Msk := (2 ^ size - 1) * 2 ^ off).
+  assert (HMsk : 0 <= Msk < 2 ^ cbits ct) by (unfold Msk; nia).
   assert (HN : 0 <= new * 2 ^ off < 2 ^ cbits ct) by nia.
   unfold mask_in_value.
   rewrite all_ones_spec by assumption.
   rewrite mask_to_n_bits_spec by (try assumption; lia).
   rewrite ones_mod by lia. cbn [bind].
   rewrite c_shl_exact; try assumption; try lia.
-  cbn [bind]. fold S.
+  cbn [bind]. fold Msk.
   rewrite not_mask_spec by assumption.
   rewrite c_shl_exact; try assumption; try lia.
   cbn [bind].
-  set (omask := 2 ^ cbits ct - 1 - S). assert (Hom : 0 <= omask < 2 ^ cbits ct) by (unfold omask; lia).
+  set (omask := 2 ^ cbits ct - 1 - Msk). assert (Hom : 0 <= omask < 2 ^ cbits ct) by (unfold omask; lia).
   rewrite c_and_exact; rewrite ?common_same by assumption; try lia;
     try (apply in_cty_promote_nonneg; [assumption|lia]).
   assert (HA := land_bound orig omask ltac:(lia) ltac:(lia)).
@@ -469,13 +469,345 @@ Proof.
   eexists. split; [reflexivity|]. split; [exact HR|].
   intros i Hi. unfold inserted.
   rewrite Z.lor_spec, Z.land_spec. unfold omask. rewrite testbit_not_mask by lia.
-  unfold S at 1. rewrite testbit_ones_shift by lia. rewrite Z.mul_pow2_bits by lia.
+  unfold Msk at 1. rewrite testbit_ones_shift by lia. rewrite Z.mul_pow2_bits by lia.
   destruct (off <=? i) eqn:C1; destruct (i <? off + size) eqn:C2; cbn [andb negb].
   - rewrite !andb_false_r. reflexivity.
   - rewrite (testbit_small new size (i - off)) by lia. rewrite andb_true_r, orb_false_r.
     destruct (i <? cbits ct) eqn:C3; [apply andb_true_r|].
-    rewrite andb_false_r. symmetry. apply (testbit_small orig (cbits ct)); lia.
-  - rewrite Z.testbit_neg_r by lia. rewrite andb_true_r, orb_false_r.
+    rewrite andb_false_r. symmetry. apply (testbit_small orig (cbits ct)); [exact Ho|].
+    apply Z.ltb_ge in C3. lia.
+  - rewrite (Z.testbit_neg_r new (i - off)) by lia. rewrite andb_true_r, orb_false_r.
     replace (i <? cbits ct) with true by lia. apply andb_true_r.
   - lia.
 Qed.
+
+(* ------------------------------------------------------------------------- *)
+(* OffsetBitBlock::WriteUInt                                                  *)
+(* ------------------------------------------------------------------------- *)
+(* the same view over the container's new bytes *)
+Definition set_bytes (bv : bitview) (bs : list Z) : bitview :=
+  mk_bv (bv_order bv) (bv_kbits bv) (Some bs) (bv_obb bv).
+
+Lemma set_bytes_wf : forall bv bytes off w bs', wf_field bv bytes off w ->
+  length bs' = length bytes -> Forall byte bs' -> wf_field (set_bytes bv bs') bs' off w.
+Proof.
+  intros bv bytes off w bs' [[Hb HB Hn Hk Hfit] Hobb Hw Hoff Hext] Hl HB'.
+  constructor; cbn [set_bytes bv_obb]; rewrite ?Hl; try assumption.
+  constructor; cbn [set_bytes bv_bytes bv_kbits bv_order]; rewrite ?Hl; try assumption. reflexivity.
+Qed.
+
+Definition written (bv : bitview) (bytes : list Z) (off w v : Z) (bs' : list Z) : Prop :=
+  length bs' = length bytes /\ Forall byte bs' /\
+  forall i, 0 <= i -> Z.testbit (container_valz (bv_order bv) bs') i = inserted (cv_of bv bytes) v off w i.
+
+Lemma bv_write_field : forall bv bytes off w v, wf_field bv bytes off w -> 0 <= v < 2 ^ w ->
+  exists bs', bv_write true bv v = Some bs' /\ written bv bytes off w v bs'.
+Proof.
+  intros bv bytes off w v F Hv.
+  pose proof F as [W Hobb Hw Hoff Hext].
+  destruct (bv_ct_std bv bytes W) as [Hstd [Hu Hc]].
+  assert (Hcv := cv_bound bv bytes W). assert (Hcvc := cv_bound_ct bv bytes W).
+  pose proof W as [Hb HB Hn Hk Hfit].
+  assert (Hwc : 2 ^ w <= 2 ^ cbits (bv_ct bv)) by (apply pow2_le; lia).
+  unfold bv_write. rewrite Hobb. cbn [ob_offset ob_size ob_ok].
+  rewrite mask_to_n_bits_spec by (try assumption; lia).
+  rewrite Z.mod_small by lia. cbn [bind]. rewrite Z.eqb_refl. cbn [negb].
+  rewrite (bitblock_read_spec bv bytes W). cbn [bind].
+  destruct (mask_in_value_spec (bv_ct bv) off w (cv_of bv bytes) v) as [R [HR [HRb Hbits]]]; try assumption; try lia.
+  rewrite HR. cbn [bind].
+  assert (HR8 : R < 2 ^ (8 * Z.of_nat (length bytes))).
+  { apply lt_pow2_of_bits; try lia. intros i Hi. rewrite Hbits by lia. unfold inserted.
+    replace ((off <=? i) && (i <? off + w)) with false by lia.
+    apply (testbit_small _ (8 * Z.of_nat (length bytes))); lia. }
+  unfold bitblock_write. rewrite Hb.
+  rewrite mask_to_n_bits_spec by (try assumption; lia).
+  rewrite Hk. rewrite (Z.mod_small R) by lia. cbn [bind]. rewrite Z.eqb_refl. cbn [negb].
+  destruct (container_store_opt (bv_order bv) bytes R Hn Hfit ltac:(lia)) as [bs' [Hs [Hl [HB' Hval]]]].
+  exists bs'. split; [exact Hs|]. split; [exact Hl|]. split; [exact HB'|].
+  intros i Hi. rewrite Hval. apply Hbits. exact Hi.
+Qed.
+
+(* reading the field back gives the written value; all other bits of the container are unchanged *)
+Lemma written_read_back : forall bv bytes off w v bs', wf_field bv bytes off w -> 0 <= v < 2 ^ w ->
+  written bv bytes off w v bs' ->
+  field_bits (cv_of (set_bytes bv bs') bs') off w = v.
+Proof.
+  intros bv bytes off w v bs' [W Hobb Hw Hoff Hext] Hv [Hl [HB Hbits]].
+  apply Z.bits_inj'. intros i Hi.
+  rewrite testbit_field_bits by lia. unfold cv_of. cbn [set_bytes bv_order].
+  rewrite Hbits by lia. unfold inserted.
+  destruct (i <? w) eqn:C.
+  - replace ((off <=? i + off) && (i + off <? off + w)) with true by lia. cbn [andb]. f_equal. lia.
+  - cbn [andb]. symmetry. apply (testbit_small v w); lia.
+Qed.
+
+Lemma written_frame : forall bv bytes off w v bs' i, written bv bytes off w v bs' ->
+  0 <= i -> (i < off \/ off + w <= i) ->
+  Z.testbit (container_valz (bv_order bv) bs') i = Z.testbit (cv_of bv bytes) i.
+Proof.
+  intros bv bytes off w v bs' i [_ [_ Hbits]] Hi Hout. rewrite Hbits by lia. unfold inserted.
+  replace ((off <=? i) && (i <? off + w)) with false by lia. reflexivity.
+Qed.
+
+(* ------------------------------------------------------------------------- *)
+(* TryToWrite                                                                 *)
+(* ------------------------------------------------------------------------- *)
+Lemma uint_try_write_accept : forall bv bytes off w argty v, wf_field bv bytes off w ->
+  std_cty argty -> in_cty argty v -> 0 <= v < 2 ^ w ->
+  exists bs', uint_try_write true bv argty w v = Some (true, Some bs') /\ written bv bytes off w v bs' /\
+              uint_read true (set_bytes bv bs') w = Some v.
+Proof.
+  intros bv bytes off w argty v F Ha Hin Hv.
+  pose proof F as [W Hobb Hw Hoff Hext].
+  destruct (bv_ct_std bv bytes W) as [Hstd [Hu Hc]].
+  assert (Hw64 : w <= 64) by (destruct W; lia).
+  assert (Hlw := lw_ge w Hw64).
+  unfold uint_try_write. rewrite uint_could_write_spec by (try assumption; lia).
+  replace ((0 <=? v) && (v <? 2 ^ w)) with true by lia. cbn [bind negb].
+  rewrite (is_complete_wf bv bytes off w F). cbn [negb].
+  assert (E1 : wrap (uty w) v = v).
+  { apply wrap_id; [cbn [cbits uty]; lia|]. apply in_cty_unsigned; [reflexivity|]. cbn [cbits uty].
+    assert (2 ^ w <= 2 ^ lw w) by (apply pow2_le; lia). lia. }
+  assert (E2 : wrap (bv_ct bv) v = v).
+  { apply wrap_id; [destruct W; lia|]. apply in_cty_unsigned; [assumption|].
+    assert (2 ^ w <= 2 ^ cbits (bv_ct bv)) by (apply pow2_le; destruct W; lia). lia. }
+  rewrite E1, E2.
+  destruct (bv_write_field bv bytes off w v F Hv) as [bs' [Hwr Hwritten]].
+  rewrite Hwr. cbn [bind]. exists bs'. split; [reflexivity|]. split; [exact Hwritten|].
+  pose proof Hwritten as [Hl [HB _]].
+  rewrite (uint_read_spec _ _ _ _ (set_bytes_wf bv bytes off w bs' F Hl HB)).
+  f_equal. eapply written_read_back; eassumption.
+Qed.
+
+Lemma uint_try_write_reject : forall bv argty w v, std_cty argty -> in_cty argty v -> 1 <= w <= 64 ->
+  ~ (0 <= v < 2 ^ w) -> uint_try_write true bv argty w v = Some (false, None).
+Proof.
+  intros bv argty w v Ha Hin Hw Hv. unfold uint_try_write.
+  rewrite uint_could_write_spec by assumption.
+  replace ((0 <=? v) && (v <? 2 ^ w)) with false by lia. reflexivity.
+Qed.
+
+Lemma mod_mod_pow2 : forall a c w, 0 <= w <= c -> (a mod 2 ^ c) mod 2 ^ w = a mod 2 ^ w.
+Proof.
+  intros a c w H. apply Z.bits_inj'. intros i Hi.
+  rewrite !Z.testbit_mod_pow2 by lia.
+  destruct (i <? w) eqn:C; [|reflexivity]. replace (i <? c) with true by lia. reflexivity.
+Qed.
+
+Lemma twos_complement_mod : forall w v, 1 <= w -> - 2 ^ (w - 1) <= v < 2 ^ (w - 1) ->
+  twos_complement w (v mod 2 ^ w) = v.
+Proof.
+  intros w v Hw Hv. assert (E := pow2_pred w Hw). assert (P : 0 < 2 ^ (w - 1)) by (apply pow2_pos; lia).
+  unfold twos_complement.
+  destruct (Z_lt_le_dec v 0).
+  - replace (v mod 2 ^ w) with (v + 2 ^ w) by (apply Z.mod_unique with (-1); lia).
+    replace (v + 2 ^ w <? 2 ^ (w - 1)) with false by lia. lia.
+  - rewrite Z.mod_small by lia. replace (v <? 2 ^ (w - 1)) with true by lia. reflexivity.
+Qed.
+
+Lemma int_try_write_accept : forall bv bytes off w argty v, wf_field bv bytes off w ->
+  std_cty argty -> in_cty argty v -> - 2 ^ (w - 1) <= v < 2 ^ (w - 1) ->
+  exists bs', int_try_write true bv argty w v = Some (true, Some bs') /\
+              written bv bytes off w (v mod 2 ^ w) bs' /\
+              int_read true (set_bytes bv bs') w = Some v.
+Proof.
+  intros bv bytes off w argty v F Ha Hin Hv.
+  pose proof F as [W Hobb Hw Hoff Hext].
+  destruct (bv_ct_std bv bytes W) as [Hstd [Hu Hc]].
+  assert (Hw64 : w <= 64) by (destruct W; lia).
+  assert (Hwc : w <= cbits (bv_ct bv)) by (destruct W; lia).
+  assert (P : 0 < 2 ^ w) by (apply pow2_pos; lia).
+  unfold int_try_write. rewrite int_could_write_spec by (try assumption; lia).
+  replace ((- 2 ^ (w - 1) <=? v) && (v <? 2 ^ (w - 1))) with true by lia. cbn [bind negb].
+  rewrite (is_complete_wf bv bytes off w F). cbn [negb].
+  assert (Hm : 0 <= v mod 2 ^ w < 2 ^ w) by (apply Z.mod_pos_bound; lia).
+  rewrite mask_to_n_bits_spec; try assumption; try lia.
+  2: { rewrite wrap_unsigned by assumption. apply Z.mod_pos_bound. apply pow2_pos. lia. }
+  rewrite wrap_unsigned by assumption. rewrite mod_mod_pow2 by lia. cbn [bind].
+  destruct (bv_write_field bv bytes off w (v mod 2 ^ w) F Hm) as [bs' [Hwr Hwritten]].
+  rewrite Hwr. cbn [bind]. exists bs'. split; [reflexivity|]. split; [exact Hwritten|].
+  pose proof Hwritten as [Hl [HB _]].
+  rewrite (int_read_spec _ _ _ _ (set_bytes_wf bv bytes off w bs' F Hl HB)).
+  f_equal. rewrite (written_read_back bv bytes off w (v mod 2 ^ w) bs' F Hm Hwritten).
+  apply twos_complement_mod; lia.
+Qed.
+
+Lemma int_try_write_reject : forall bv argty w v, std_cty argty -> in_cty argty v -> 1 <= w <= 64 ->
+  ~ (- 2 ^ (w - 1) <= v < 2 ^ (w - 1)) -> int_try_write true bv argty w v = Some (false, None).
+Proof.
+  intros bv argty w v Ha Hin Hw Hv. unfold int_try_write.
+  rewrite int_could_write_spec by assumption.
+  replace ((- 2 ^ (w - 1) <=? v) && (v <? 2 ^ (w - 1))) with false by lia. reflexivity.
+Qed.
+
+Lemma enum_try_write_unsigned_accept : forall bv bytes off w ut v, wf_field bv bytes off w ->
+  std_cty ut -> csigned ut = false -> w <= cbits ut -> 0 <= v < 2 ^ w ->
+  exists bs', enum_try_write true bv ut w v = Some (true, Some bs') /\ written bv bytes off w v bs' /\
+              enum_read true (set_bytes bv bs') ut w = Some v.
+Proof.
+  intros bv bytes off w ut v F Hut Huu Hwu Hv.
+  pose proof F as [W Hobb Hw Hoff Hext].
+  destruct (bv_ct_std bv bytes W) as [Hstd [Hu Hc]].
+  assert (Hwc : w <= cbits (bv_ct bv)) by (destruct W; lia).
+  assert (Hle : 2 ^ w <= 2 ^ cbits ut) by (apply pow2_le; lia).
+  assert (Hle2 : 2 ^ w <= 2 ^ cbits (bv_ct bv)) by (apply pow2_le; lia).
+  unfold enum_try_write.
+  rewrite enum_could_write_unsigned_spec; try assumption; try lia.
+  2: { apply in_cty_unsigned; [assumption|lia]. }
+  replace (v <? 2 ^ w) with true by lia. cbn [bind negb].
+  rewrite (is_complete_wf bv bytes off w F). cbn [negb].
+  rewrite (wrap_id (bv_ct bv) v) by (first [lia | apply in_cty_unsigned; [assumption|lia]]).
+  destruct (bv_write_field bv bytes off w v F Hv) as [bs' [Hwr Hwritten]].
+  rewrite Hwr. cbn [bind]. exists bs'. split; [reflexivity|]. split; [exact Hwritten|].
+  pose proof Hwritten as [Hl [HB _]].
+  rewrite (enum_read_unsigned_spec _ _ _ _ ut (set_bytes_wf bv bytes off w bs' F Hl HB)) by assumption.
+  f_equal. eapply written_read_back; eassumption.
+Qed.
+
+Lemma flag_try_write_ok : forall bv bytes off (b : bool), wf_field bv bytes off 1 ->
+  exists bs', flag_try_write true bv b = Some (true, Some bs') /\ written bv bytes off 1 (if b then 1 else 0) bs' /\
+              flag_read true (set_bytes bv bs') = Some b.
+Proof.
+  intros bv bytes off b F.
+  pose proof F as [W Hobb Hw Hoff Hext].
+  unfold flag_try_write, flag_is_complete, bv_ok, bv_size_in_bits. rewrite Hobb. cbn [ob_ok ob_size andb negb].
+  change (0 <? 1) with true. cbn [negb].
+  assert (Hv : 0 <= (if b then 1 else 0) < 2 ^ 1) by (destruct b; pow_consts; lia).
+  destruct (bv_write_field bv bytes off 1 _ F Hv) as [bs' [Hwr Hwritten]].
+  rewrite Hwr. cbn [bind]. exists bs'. split; [reflexivity|]. split; [exact Hwritten|].
+  pose proof Hwritten as [Hl [HB _]].
+  rewrite (flag_read_spec _ _ _ (set_bytes_wf bv bytes off 1 bs' F Hl HB)).
+  rewrite (written_read_back bv bytes off 1 _ bs' F Hv Hwritten). destruct b; reflexivity.
+Qed.
+
+Lemma float_try_write_ok : forall bv bytes off w bits, wf_field bv bytes off w -> 0 <= bits < 2 ^ w ->
+  exists bs', float_try_write true bv w bits = Some (true, Some bs') /\ written bv bytes off w bits bs' /\
+              float_read_bits true (set_bytes bv bs') w = Some bits.
+Proof.
+  intros bv bytes off w bits F Hv.
+  pose proof F as [W Hobb Hw Hoff Hext].
+  destruct (bv_ct_std bv bytes W) as [Hstd [Hu Hc]].
+  assert (Hwc : w <= cbits (bv_ct bv)) by (destruct W; lia).
+  assert (Hle2 : 2 ^ w <= 2 ^ cbits (bv_ct bv)) by (apply pow2_le; lia).
+  unfold float_try_write. rewrite (is_complete_wf bv bytes off w F). cbn [negb].
+  rewrite (wrap_id (bv_ct bv) bits) by (first [lia | apply in_cty_unsigned; [assumption|lia]]).
+  destruct (bv_write_field bv bytes off w bits F Hv) as [bs' [Hwr Hwritten]].
+  rewrite Hwr. cbn [bind]. exists bs'. split; [reflexivity|]. split; [exact Hwritten|].
+  pose proof Hwritten as [Hl [HB _]].
+  rewrite (float_read_spec _ _ _ _ (set_bytes_wf bv bytes off w bs' F Hl HB)).
+  f_equal. eapply written_read_back; eassumption.
+Qed.
+
+(* a write that reports failure produces no bytes: the buffer is untouched *)
+Lemma failed_write_no_bytes :
+  (forall opt bv argty w v r, uint_try_write opt bv argty w v = Some (false, r) -> r = None) /\
+  (forall opt bv argty w v r, int_try_write opt bv argty w v = Some (false, r) -> r = None) /\
+  (forall opt bv argty w v r, bcd_try_write opt bv argty w v = Some (false, r) -> r = None) /\
+  (forall opt bv ut w v r, enum_try_write opt bv ut w v = Some (false, r) -> r = None) /\
+  (forall opt bv v r, flag_try_write opt bv v = Some (false, r) -> r = None) /\
+  (forall opt bv w v r, float_try_write opt bv w v = Some (false, r) -> r = None).
+Proof.
+  repeat split; intros.
+  - unfold uint_try_write in H. destruct (uint_could_write argty w v) as [[|]|]; cbn [bind negb] in H; try discriminate; try congruence.
+    destruct (is_complete bv w); cbn [bind negb] in H; try congruence.
+    destruct (bv_write opt bv _); cbn [bind negb] in H; congruence.
+  - unfold int_try_write in H. destruct (int_could_write argty w v) as [[|]|]; cbn [bind negb] in H; try discriminate; try congruence.
+    destruct (is_complete bv w); cbn [bind negb] in H; try congruence.
+    destruct (mask_to_n_bits _ _ _); cbn [bind negb] in H; try congruence.
+    destruct (bv_write opt bv _); cbn [bind negb] in H; congruence.
+  - unfold bcd_try_write in H. destruct (bcd_could_write argty w v) as [[|]|]; cbn [bind negb] in H; try discriminate; try congruence.
+    destruct (is_complete bv w); cbn [bind negb] in H; try congruence.
+    destruct (convert_to_bcd _ _); cbn [bind negb] in H; try congruence.
+    destruct (bv_write opt bv _); cbn [bind negb] in H; congruence.
+  - unfold enum_try_write in H. destruct (enum_could_write _ ut w v) as [[|]|]; cbn [bind negb] in H; try discriminate; try congruence.
+    destruct (is_complete bv w); cbn [bind negb] in H; try congruence.
+    destruct (bv_write opt bv _); cbn [bind negb] in H; congruence.
+  - unfold flag_try_write in H. destruct (flag_is_complete bv); cbn [bind negb] in H; try congruence.
+    destruct (bv_write opt bv _); cbn [bind negb] in H; congruence.
+  - unfold float_try_write in H. destruct (is_complete bv w); cbn [bind negb] in H; try congruence.
+    destruct (bv_write opt bv _); cbn [bind negb] in H; congruence.
+Qed.
+
+(* TryToWrite succeeds exactly when CouldWriteValue holds and the view IsComplete *)
+Lemma uint_try_write_iff : forall opt bv argty w v bs,
+  uint_try_write opt bv argty w v = Some (true, Some bs) ->
+  uint_could_write argty w v = Some true /\ is_complete bv w = true.
+Proof.
+  intros. unfold uint_try_write in H. destruct (uint_could_write argty w v) as [[|]|]; cbn [bind negb] in H; try discriminate.
+  destruct (is_complete bv w); cbn [bind negb] in H; try discriminate. split; reflexivity.
+Qed.
+
+Lemma int_try_write_iff : forall opt bv argty w v bs,
+  int_try_write opt bv argty w v = Some (true, Some bs) ->
+  int_could_write argty w v = Some true /\ is_complete bv w = true.
+Proof.
+  intros. unfold int_try_write in H. destruct (int_could_write argty w v) as [[|]|]; cbn [bind negb] in H; try discriminate.
+  destruct (is_complete bv w); cbn [bind negb] in H; try discriminate. split; reflexivity.
+Qed.
+
+Lemma incomplete_write_fails : forall opt bv argty w v, is_complete bv w = false ->
+  (forall b, uint_could_write argty w v = Some b -> uint_try_write opt bv argty w v = Some (false, None)) /\
+  (forall b, int_could_write argty w v = Some b -> int_try_write opt bv argty w v = Some (false, None)).
+Proof.
+  intros opt bv argty w v Hc. split; intros b Hb.
+  - unfold uint_try_write. rewrite Hb, Hc. destruct b; reflexivity.
+  - unfold int_try_write. rewrite Hb, Hc. destruct b; reflexivity.
+Qed.
+
+(* ------------------------------------------------------------------------- *)
+(* the root buffer                                                            *)
+(* ------------------------------------------------------------------------- *)
+Lemma splice_length : forall root boff bs, (boff + length bs <= length root)%nat ->
+  length (splice root boff bs) = length root.
+Proof.
+  intros. unfold splice. rewrite !app_length, firstn_length, skipn_length. lia.
+Qed.
+
+Lemma splice_outside : forall root boff bs i d, (boff + length bs <= length root)%nat ->
+  (i < boff \/ boff + length bs <= i)%nat -> nth i (splice root boff bs) d = nth i root d.
+Proof.
+  intros root boff bs i d Hl Hi. unfold splice.
+  destruct Hi as [Hi|Hi].
+  - rewrite app_nth1 by (rewrite firstn_length; lia).
+    rewrite <- (firstn_skipn boff root) at 2. rewrite app_nth1 by (rewrite firstn_length; lia). reflexivity.
+  - rewrite app_nth2 by (rewrite firstn_length; lia). rewrite firstn_length.
+    rewrite app_nth2 by lia.
+    replace (Init.Nat.min boff (length root)) with boff by lia.
+    rewrite <- (firstn_skipn (boff + length bs) root) at 2.
+    rewrite app_nth2 by (rewrite firstn_length; lia). rewrite firstn_length.
+    f_equal. lia.
+Qed.
+
+Lemma sub_storage_splice : forall root boff bs, (boff + length bs <= length root)%nat ->
+  sub_storage (splice root boff bs) boff (length bs) = bs.
+Proof.
+  intros root boff bs Hl. unfold sub_storage, splice.
+  rewrite skipn_app, firstn_length. replace (Init.Nat.min boff (length root)) with boff by lia.
+  rewrite skipn_all2 by (rewrite firstn_length; lia).
+  replace (boff - boff)%nat with 0%nat by lia. cbn [skipn app].
+  rewrite firstn_app, Nat.sub_diag. cbn [firstn]. rewrite app_nil_r. apply firstn_all.
+Qed.
+
+(* IsComplete() of a field of a struct <-> the container's bytes are present
+   (for every byte order whose orderer reports the buffer's real size) *)
+Lemma is_complete_iff_present : forall o root (boff c : nat) off w,
+  o <> Null -> 1 <= Z.of_nat c <= 8 -> order_fits o c -> 1 <= w -> 0 <= off -> off + w <= 8 * Z.of_nat c ->
+  (is_complete (get_offset_storage (field_bv o root boff c) off w) w = true <-> (boff + c <= length root)%nat).
+Proof.
+  intros o root boff c off w Ho Hc Hfit Hw Hoff Hext.
+  unfold is_complete, bv_ok, bv_size_in_bits, get_offset_storage, field_bv. cbn [bv_obb bv_bytes bv_order bv_kbits].
+  unfold mk_offset_block. cbn [ob_ok ob_size].
+  rewrite !(wrap_id u8) by (first [cbn; lia | incty]).
+  unfold bitblock_ok. cbn [bv_bytes bv_order bv_kbits].
+  assert (L : length (sub_storage root boff c) = Nat.min c (length root - boff)).
+  { unfold sub_storage. rewrite firstn_length, skipn_length. reflexivity. }
+  unfold orderer_size_in_bytes. destruct o; try congruence; rewrite L; lia.
+Qed.
+
+(* the Null byte orderer of the tree claims one byte whatever the buffer holds: the field of a struct whose
+   byte is absent reports IsComplete() *)
+Lemma null_short_complete_refuted_l :
+  exists root (boff c : nat) off w, ~ (boff + c <= length root)%nat /\
+    is_complete (get_offset_storage (field_bv Null root boff c) off w) w = true /\
+    uint_read true (get_offset_storage (field_bv Null root boff c) off w) w = None.
+Proof. exists [7], 1%nat, 1%nat, 0, 4. split; [cbn; lia|]. split; reflexivity. Qed.
